@@ -452,3 +452,152 @@ func TestCommitment(t *testing.T) {
 		}
 	})
 }
+
+// ---------------------------------------------------------------------------
+// sub-check 5: the signature cache is keyed by (digest, signature, public key)
+
+var recSigCache = ev.New("C07", "sigcache-model",
+	"operation sequences (Add / Exists) over a small universe of digests, signatures and keys (so that two components coincide while the third "+
+		"differs) on SigCaches of capacity 0-4 and 1000; oracle: Exists(d,s,k) is true only if exactly that triple was added before (a cache may "+
+		"forget, never invent), and it is true right after Add when capacity > 0; non-trivial = some query shares two components with an added "+
+		"triple but not the third; distinct by (capacity, operation sequence)",
+	"near-miss-query", "capacity-0", "eviction")
+
+func TestSigCacheModel(t *testing.T) {
+	rapid.Check(t, func(t *rapid.T) {
+		capacity := rapid.SampledFrom([]uint{0, 1, 2, 3, 4, 1000}).Draw(t, "capacity")
+		c := txscript.NewSigCache(capacity)
+		type triple struct{ d, s, k byte }
+		added := map[triple]bool{}
+		n := rapid.IntRange(1, 60).Draw(t, "nops")
+		ops := make([]byte, 0, 4*n)
+		nearMiss := false
+		mk := func(tr triple) (h [32]byte, sig, key []byte) {
+			for i := range h {
+				h[i] = tr.d
+			}
+			sig = append([]byte{0x30, 0x44}, make([]byte, 30+int(tr.s))...)
+			sig[5] = tr.s
+			key = append([]byte{0x02}, make([]byte, 32)...)
+			key[7] = tr.k
+			return
+		}
+		type op struct {
+			add bool
+			tr  triple
+		}
+		var seq []op
+		for i := 0; i < n; i++ {
+			o := op{add: rapid.Bool().Draw(t, "add"), tr: triple{
+				byte(rapid.IntRange(0, 2).Draw(t, "d")), byte(rapid.IntRange(0, 2).Draw(t, "s")), byte(rapid.IntRange(0, 2).Draw(t, "k"))}}
+			seq = append(seq, o)
+			ops = append(ops, b2b(o.add), o.tr.d, o.tr.s, o.tr.k)
+		}
+		// classification pass
+		{
+			seen := map[triple]bool{}
+			for _, o := range seq {
+				if o.add {
+					seen[o.tr] = true
+					continue
+				}
+				for tr := range seen {
+					same := b2i(tr.d == o.tr.d) + b2i(tr.s == o.tr.s) + b2i(tr.k == o.tr.k)
+					if same == 2 {
+						nearMiss = true
+					}
+				}
+			}
+		}
+		cl := "near-miss-query"
+		if !nearMiss {
+			cl = "plain"
+		}
+		recSigCache.Case(nearMiss, cl, ev.Hash([]byte{byte(capacity), byte(capacity >> 8)}, ops), func() any { return fmt.Sprintf("capacity=%d ops=%v", capacity, seq) })
+		if capacity == 0 {
+			recSigCache.Count("capacity-0", 1)
+		}
+		if capacity > 0 && capacity < 1000 && n > int(capacity) {
+			recSigCache.Count("eviction", 1)
+		}
+		for i, o := range seq {
+			h, sig, key := mk(o.tr)
+			if o.add {
+				c.Add(h, sig, key)
+				added[o.tr] = true
+				if capacity > 0 && !c.Exists(h, sig, key) {
+					t.Fatalf("op %d: triple %v not found right after Add (capacity %d) ops=%v", i, o.tr, capacity, seq[:i+1])
+				}
+				if capacity == 0 && c.Exists(h, sig, key) {
+					t.Fatalf("op %d: a cache of capacity 0 stored an entry", i)
+				}
+				continue
+			}
+			if c.Exists(h, sig, key) && !added[o.tr] {
+				t.Fatalf("op %d: SigCache claims (digest %d, sig %d, key %d) is a verified signature although this triple was never added; ops=%v",
+					i, o.tr.d, o.tr.s, o.tr.k, seq[:i+1])
+			}
+		}
+	})
+}
+
+func b2i(b bool) int {
+	if b {
+		return 1
+	}
+	return 0
+}
+
+func b2b(b bool) byte { return byte(b2i(b)) }
+
+// ---------------------------------------------------------------------------
+// sub-check 5b: a cached verification must not vouch for another key or digest
+
+var recSigCacheEngine = ev.New("C07", "sigcache-engine",
+	"a 2-of-2 P2WSH multisig input signed by the model (keys A, B; drawn hash type); after the valid spend [sigA sigB] populated the process-wide "+
+		"SigCache, the forged witnesses [sigA sigA] and [sigB sigB] (same digest, same signature bytes, wrong key) and the valid witness on a "+
+		"transaction with another lock time (same signatures and keys, other digest) are executed with the same cache; oracle: the valid spend "+
+		"succeeds, the three others fail, with and without the cache; non-trivial = always; distinct by (tx, keys, hash type)",
+	"ht:01", "ht:02", "ht:03", "ht:81", "ht:82", "ht:83")
+
+func TestSigCacheEngine(t *testing.T) {
+	rapid.Check(t, func(t *rapid.T) {
+		tx := genTx(t)
+		idx := rapid.IntRange(0, len(tx.In)-1).Draw(t, "idx")
+		ks := drawKeys(t, 2)
+		ht := rapid.SampledFrom(definedECDSA).Draw(t, "hashType")
+		ws := multisigScript(2, [][]byte{ks[0].comp, ks[1].comp})
+		sp := &spend{kind: "p2wsh-2of2", pkScript: p2wshScript(ws), flags: txscript.StandardVerifyFlags, hashType: ht}
+		spent := genSpent(t, tx, -1, false)
+		spent[idx] = sighash.TxOut{Value: genAmount(t), PkScript: sp.pkScript}
+		n1, n2 := genBytes(t, 32, 32, "nonce1"), genBytes(t, 32, 32, "nonce2")
+		recSigCacheEngine.Case(true, fmt.Sprintf("ht:%02x", ht), caseHash(tx, []byte{byte(idx), byte(ht), byte(ks[0].i), byte(ks[1].i)}), func() any {
+			return describeSpend(tx, idx, spent, sp)
+		})
+		tx.In[idx].ScriptSig = nil
+		d := sighash.WitnessV0(ws, tx, idx, ht, spent[idx].Value)
+		sigA := modelSignECDSA(ks[0], d, n1, byte(ht))
+		sigB := modelSignECDSA(ks[1], d, n2, byte(ht))
+		tx.In[idx].Witness = [][]byte{{}, sigA, sigB, ws}
+		if err := runEngine(sp, tx, idx, spent, sharedSigCache, true); err != nil {
+			t.Fatalf("valid 2-of-2 spend rejected: %v\n%s", err, describeSpend(tx, idx, spent, sp))
+		}
+		for _, forged := range [][][]byte{{{}, sigA, sigA, ws}, {{}, sigB, sigB, ws}} {
+			ftx := tx.Clone()
+			ftx.In[idx].Witness = forged
+			for _, c := range []*txscript.SigCache{sharedSigCache, nil} {
+				if err := runEngine(sp, ftx, idx, spent, c, true); err == nil {
+					t.Fatalf("2-of-2 multisig accepted one party's signature twice (sigCache=%v): the cache vouched for a (digest, signature) pair under the wrong key\n%s",
+						c != nil, describeSpend(ftx, idx, spent, sp))
+				}
+			}
+		}
+		ltx := tx.Clone()
+		ltx.LockTime ^= 2
+		for _, c := range []*txscript.SigCache{sharedSigCache, nil} {
+			if err := runEngine(sp, ltx, idx, spent, c, true); err == nil {
+				t.Fatalf("signatures made for lock time %d accepted for lock time %d (sigCache=%v)\n%s", tx.LockTime, ltx.LockTime, c != nil, describeSpend(ltx, idx, spent, sp))
+			}
+		}
+	})
+}
